@@ -42,53 +42,59 @@ func headerValuesComplete(c *core.Ctx, R string) {
 	}
 	info := u.Info()
 	n := 0
-	ast.Inspect(u.Body, func(x ast.Node) bool {
-		rs, ok := x.(*ast.RangeStmt)
-		if !ok {
-			return true
-		}
-		ce, isC := ast.Unparen(rs.X).(*ast.CallExpr)
-		if !isC || calleeNameOf(ce) != "All" {
-			return true
-		}
-		se, _ := ce.Fun.(*ast.SelectorExpr)
-		if se == nil || fieldOf(info, se.X) != "HttpContext.ResponseHeaders" {
-			return true
-		}
-		n++
-		val, _ := rs.Value.(*ast.Ident)
-		if val == nil || val.Name == "_" {
-			c.Check(R, "types.(*HttpContext).Write/all-values-of-a-field", rs.Pos(), false, "the values of the field are not used at all")
-			return true
-		}
-		vobj := info.Defs[val]
-		indexed, whole := 0, 0
-		var parents []ast.Node
-		ast.Inspect(rs.Body, func(y ast.Node) bool {
-			if y == nil {
-				parents = parents[:len(parents)-1]
+	var bodies []ast.Node
+	for _, x := range u.WithHelpers() { // the copy loop may have been extracted into a private helper called by Write
+		bodies = append(bodies, x.Body)
+	}
+	for _, body := range bodies {
+		ast.Inspect(body, func(x ast.Node) bool {
+			rs, ok := x.(*ast.RangeStmt)
+			if !ok {
 				return true
 			}
-			if id, isID := y.(*ast.Ident); isID && info.Uses[id] == vobj && len(parents) > 0 {
-				switch p := parents[len(parents)-1].(type) {
-				case *ast.IndexExpr:
-					if p.X == ast.Expr(id) {
-						indexed++
-					}
-				case *ast.SliceExpr:
-					if p.X == ast.Expr(id) {
-						indexed++
-					}
-				default:
-					whole++
-				}
+			ce, isC := ast.Unparen(rs.X).(*ast.CallExpr)
+			if !isC || calleeNameOf(ce) != "All" {
+				return true
 			}
-			parents = append(parents, y)
+			se, _ := ce.Fun.(*ast.SelectorExpr)
+			if se == nil || fieldOf(info, se.X) != "HttpContext.ResponseHeaders" {
+				return true
+			}
+			n++
+			val, _ := rs.Value.(*ast.Ident)
+			if val == nil || val.Name == "_" {
+				c.Check(R, "types.(*HttpContext).Write/all-values-of-a-field", rs.Pos(), false, "the values of the field are not used at all")
+				return true
+			}
+			vobj := info.Defs[val]
+			indexed, whole := 0, 0
+			var parents []ast.Node
+			ast.Inspect(rs.Body, func(y ast.Node) bool {
+				if y == nil {
+					parents = parents[:len(parents)-1]
+					return true
+				}
+				if id, isID := y.(*ast.Ident); isID && info.Uses[id] == vobj && len(parents) > 0 {
+					switch p := parents[len(parents)-1].(type) {
+					case *ast.IndexExpr:
+						if p.X == ast.Expr(id) {
+							indexed++
+						}
+					case *ast.SliceExpr:
+						if p.X == ast.Expr(id) {
+							indexed++
+						}
+					default:
+						whole++
+					}
+				}
+				parents = append(parents, y)
+				return true
+			})
+			c.Check(R, "types.(*HttpContext).Write/all-values-of-a-field", rs.Pos(), indexed == 0 && whole >= 1, keyf("uses of the value list as a whole: %d; indexed or sliced: %d", whole, indexed))
 			return true
 		})
-		c.Check(R, "types.(*HttpContext).Write/all-values-of-a-field", rs.Pos(), indexed == 0 && whole >= 1, keyf("uses of the value list as a whole: %d; indexed or sliced: %d", whole, indexed))
-		return true
-	})
+	}
 	c.Need(R, "range over ResponseHeaders.All() in HttpContext.Write", n, 1)
 }
 
@@ -538,5 +544,34 @@ func discardCompletesBufferedClose(c *core.Ctx, R string) {
 			}
 		}
 	}
+	// exactly: the Swap on every path, and nothing but its result decides whether the closure runs (a TryLock, a state
+	// test … would again leave a pending close to the 30 s timer)
+	every := false
+	for _, cl := range fieldCalls(u, "polling.shouldClose") {
+		if cl.Name != "Swap" {
+			continue
+		}
+		every = true
+		for _, r := range returnsIn(u) {
+			every = every && g.Dominates(cl.Loc, r.Loc)
+		}
+		for _, f := range g.Facts() {
+			if g.EdgeDominates(f.Br.B, f.Edge, cl.Loc) {
+				every = false
+			}
+		}
+	}
+	only := true
+	for _, cl := range u.Calls() {
+		if _, isStar := ast.Unparen(cl.Expr.Fun).(*ast.StarExpr); cl.Callee != nil || !isStar {
+			continue
+		}
+		for _, f := range g.Facts() {
+			if g.EdgeDominates(f.Br.B, f.Edge, cl.Loc) && taken(u, f.Br) == 0 {
+				only = false
+			}
+		}
+	}
+	run = run && every && only
 	c.Check(R, "transports.(*polling).Discard/base-Discard+run(shouldClose.Swap(nil))", u.Pos(), base && run, keyf("base Discard called: %v; pending close closure taken with Swap(nil) and run: %v", base, run))
 }
